@@ -30,9 +30,11 @@ class Boom(Exception):
     pass
 
 
-def replay_one(hist: list[dict[str, Any]]) -> str | None:
+def replay_one(hist: list[dict[str, Any]],
+               sync_ids: frozenset = frozenset()) -> str | None:
     """Interpret a behaviour of Tracing.tla: nested / recursive calls of the
-    traced functions are driven from inside the function bodies."""
+    traced functions are driven from inside the function bodies.  Functions
+    whose id is in sync_ids are decorated with trace(sync=True)."""
     import kfac.tracing as tracing
 
     clock = {'t': 0.0}
@@ -61,8 +63,13 @@ def replay_one(hist: list[dict[str, Any]]) -> str | None:
                 exc = Boom(f'x{i}')
                 box = {'raises': None}
                 try:
-                    out = impls[rec['f']](marker, exc, box, depth + 1)
-                    if box['raises']:
+                    # positional and keyword arguments pass through untouched
+                    kw = {'tag': marker, 'n': i}
+                    out = impls[rec['f']](marker, exc, box, depth + 1, i,
+                                          **kw)
+                    if box.get('args') != ((i,), kw):
+                        state['err'] = f'op {i}: arguments changed'
+                    elif box['raises']:
                         state['err'] = f'op {i}: exception swallowed'
                     elif out is not marker:
                         state['err'] = f'op {i}: return value changed'
@@ -105,6 +112,7 @@ def replay_one(hist: list[dict[str, Any]]) -> str | None:
         for fid, name in FUNCS:
             def make(fid=fid):
                 def f(marker, exc, box, depth, *a, **kw):
+                    box['args'] = (a, kw)
                     raises, _ = run_until_end(depth)
                     box['raises'] = raises
                     if raises:
@@ -113,12 +121,80 @@ def replay_one(hist: list[dict[str, Any]]) -> str | None:
                 return f
             f = make()
             f.__name__ = name
-            impls[fid] = tracing.trace()(f)
+            impls[fid] = tracing.trace(sync=fid in sync_ids)(f)
         run_until_end(0)
         return state['err']
     finally:
         tracing.time = real_time
         tracing.clear_trace()
+
+
+SYNC_IDS = frozenset({2})
+
+
+def replay_sync(hist: list[dict[str, Any]]) -> str | None:
+    """trace(sync=True): rank 0 replays the behaviour with function 2 synced;
+    rank 1 plays the environment the specification prescribes -- one world
+    barrier when a synced call begins and one when it returns (none when it
+    raises).  Any other barrier pattern of the decorator is a mismatch or a
+    stall on the simulated world."""
+    import torch.distributed as dist
+    from harness import simdist
+
+    res: dict[int, Any] = {}
+
+    def body(r: int) -> None:
+        if r == 0:
+            res[0] = replay_one(hist, SYNC_IDS)
+            return
+        stack: list[int] = []
+        for rec in hist:
+            if rec['act'] == 'begin':
+                stack.append(rec['f'])
+                if rec['f'] in SYNC_IDS:
+                    dist.barrier()
+            elif rec['act'] == 'end':
+                f = stack.pop()
+                if f in SYNC_IDS and not rec['flag']:
+                    dist.barrier()
+
+    w = simdist.World(2, simdist.LazyCompletion(0))
+    w.run(body)
+    errs = [rs.error for rs in w.ranks if rs.error is not None]
+    if errs:
+        return f'sync: {type(errs[0]).__name__}: {errs[0]}'[:200]
+    if w.monitors:
+        return f'sync: {w.monitors[0]}'[:200]
+    nb = sum(1 for e in w.events if e['ev'] == 'issue' and e.get('rank') == 0
+             and e['kind'] == 'barrier')
+    want = 0
+    stack = []
+    for rec in hist:
+        if rec['act'] == 'begin':
+            stack.append(rec['f'])
+            want += rec['f'] in SYNC_IDS
+        elif rec['act'] == 'end':
+            f = stack.pop()
+            want += (f in SYNC_IDS and not rec['flag'])
+    if hist and hist[0]['act'] == 'nbar':
+        if want != hist[0]['d']:
+            raise RuntimeError('environment rank disagrees with Tracing.tla')
+        want = hist[0]['d']
+    if nb != want:
+        return f'sync: {nb} barriers issued, specification {want}'
+    return res.get(0)
+
+
+def chunk_sync(hs: list[list[dict]]) -> list[tuple[str, list]]:
+    out = []
+    for h in hs:
+        try:
+            msg = replay_sync(h)
+        except Exception as e:  # noqa: BLE001
+            msg = f'exception {type(e).__name__}: {e}'[:300]
+        if msg:
+            out.append((msg, h))
+    return out
 
 
 def chunk(hs: list[list[dict]]) -> list[tuple[str, list]]:
@@ -138,7 +214,7 @@ def gen(depth: int, funcs: list, durs: list[int], hist: list[int],
     defs = ('Funcs == {' + ', '.join(
         f'[id |-> {i}, name |-> "{n}"]' for i, n in funcs) + '}\n'
         f'Durs == {tla(set(durs))}\nHist == {tla(set(hist))}\n'
-        f'MaxNest == 3\nMaxDepth == {depth}\n')
+        f'MaxNest == 3\nSyncIds == {{2}}\nMaxDepth == {depth}\n')
     name = 'MC_Tracing'
     mod = instantiate('Tracing', name, defs)
     cfg = 'SPECIFICATION Spec\nCONSTRAINT EmitDone\nCHECK_DEADLOCK FALSE\n'
@@ -166,7 +242,7 @@ def gen_states(depth: int, nest: int, durs: list[int],
     defs = ('Funcs == {' + ', '.join(
         f'[id |-> {i}, name |-> "{n}"]' for i, n in FUNCS) + '}\n'
         f'Durs == {tla(set(durs))}\nHist == {tla(set(hist))}\n'
-        f'MaxNest == {nest}\nMaxDepth == {depth}\n')
+        f'MaxNest == {nest}\nSyncIds == {{2}}\nMaxDepth == {depth}\n')
     name = 'MC_TracingS'
     mod = instantiate('Tracing', name, defs)
     r = run_tlc(name, cfg_text='SPECIFICATION Spec\nVIEW view\n'
@@ -181,7 +257,8 @@ def gen_states(depth: int, nest: int, durs: list[int],
             except Exception:  # noqa: BLE001
                 continue
             qs = sorted(d['q'], key=lambda q: (q['avg'], q['k']))
-            hs.append(list(d['h']) + [
+            hs.append([{'act': 'nbar', 'f': 0, 'd': int(d['nbar']),
+                        'flag': False, 'exp': []}] + list(d['h']) + [
                 {'act': 'get', 'f': 0, 'd': q['k'], 'flag': q['avg'],
                  'exp': q['exp']} for q in qs])
     return r, hs
@@ -193,13 +270,14 @@ def main(tier: str, seed: int) -> int:
     name = 'MC_TracingP'
     defs = ('Funcs == {' + ', '.join(
         f'[id |-> {i}, name |-> "{n}"]' for i, n in FUNCS) + '}\n'
-        'Durs == {1, 3}\nHist == {0, 1, 2}\nMaxNest == 3\n'
+        'Durs == {1, 3}\nHist == {0, 1, 2}\nMaxNest == 3\nSyncIds == {2}\n'
         f'MaxDepth == {7 if quick else 8}\n')
     mod = instantiate('Tracing', name, defs)
     rp = run_tlc(name, cfg_text=(
         'SPECIFICATION Spec\nVIEW view\nINVARIANT NoEmptyEntries\n'
         'INVARIANT UniqueKeys\nINVARIANT SamplesBounded\n'
-        'INVARIANT StackOrdered\nPROPERTY OneSamplePerCompletedCall\n'
+        'INVARIANT StackOrdered\nINVARIANT BarriersBounded\n'
+        'PROPERTY OneSamplePerCompletedCall\n'
         'PROPERTY QueriesDoNotChange\n'
         'CHECK_DEADLOCK FALSE\n'), extra_modules={name: mod}, workers=8,
         deadlock=False, timeout=1800)
@@ -230,11 +308,23 @@ def main(tier: str, seed: int) -> int:
                         f'{[(x["act"], x["f"], x["d"], x["flag"]) for x in h]}'[:600],
                         {'kind': 'replay', 'msg': msg.split(':', 1)[-1].strip()[:30]},
                         replay={'h': h})
+    # trace(sync=True) on a simulated 2-rank world
+    hsync = [h for h in h4 if any(x['act'] == 'begin' and x['f'] in SYNC_IDS
+                                  for x in h)]
+    hsync = rng.sample(hsync, min(len(hsync), 160 if quick else 3000))
+    sres = pmap(chunk_sync, [hsync[i::16] for i in range(16) if hsync[i::16]])
+    for lst in sres:
+        for msg, h in lst:
+            v.violation(f'{msg} :: history '
+                        f'{[(x["act"], x["f"], x["d"], x["flag"]) for x in h]}'[:600],
+                        {'kind': 'sync', 'msg': msg.split(':', 1)[-1].strip()[:30]},
+                        replay={'h': h, 'sync': True})
     nontriv = {chash(h) for h in hs
                if any(x['act'] == 'get' and x['exp'] for x in h)}
     v.coverage = {
         'states': max(rp.distinct + r1.distinct + r2.distinct + r3.distinct + r4.distinct, 1),
         'state_coverage_histories': len(h3) + len(h4),
+        'sync_histories': len(hsync),
         'transitions': max(rp.generated + r1.generated + r2.generated, 1),
         'traces_validated_against_impl': len(hs),
         'samples': [[(x['act'], x['f'], x['d'], x['flag']) for x in hs[0]]]
@@ -246,13 +336,17 @@ def main(tier: str, seed: int) -> int:
     }
     v.assumptions = ['max_history = 0 is outside the domain (the code treats '
                      '0 like "all"; the spec uses 0 for "unset")',
-                     'sync=True (torch.distributed.barrier) is not exercised '
-                     'here']
+                     'sync=True: one observed rank plus an environment rank '
+                     'that issues the barriers the specification prescribes']
     return v.finish()
 
 
 def replay(path: str) -> int:
     rec = json.load(open(path))
+    if rec['replay'].get('sync'):
+        msg = replay_sync(rec['replay']['h'])
+        print(msg)
+        return 1 if msg else 0
     msg = replay_one(rec['replay']['h'])
     print(msg)
     return 1 if msg else 0
